@@ -100,33 +100,34 @@ type Engine struct {
 	Shadows []*Shadow
 	St      *Stats
 
-	step          int
-	expEvents     []MEv
-	expLockedAt   bool
-	touched       map[ecs.Entity]bool
-	replica       map[ecs.Entity]*MEnt
-	replicaOK     bool
-	pendingDef    int // open batch queries with deferred events
-	canarySeq     uint64
-	valSeq        uint64
-	suspect       bool
-	log           *Digest
-	Concrete      []string
-	keepConcrete  bool
-	unregOrig     map[int]ecs.Filter
-	lastUnregSlot int
-	hadUnreg      bool
-	gcCount       int
-	gcAt          int
-	resetCount    int
-	noTwin        bool
-	dispatchAdded []bool
-	weak          *weakLedger
-	lastShadow    map[*Shadow]Result
-	lastGot       []Ev
-	rmOrder       []ecs.Entity
-	forceQ        bool
-	noHook        bool // never touch the package-level hook (several engines on real goroutines)
+	step             int
+	expEvents        []MEv
+	expLockedAt      bool
+	touched          map[ecs.Entity]bool
+	replica          map[ecs.Entity]*MEnt
+	replicaOK        bool
+	pendingDef       int // open batch queries with deferred events
+	canarySeq        uint64
+	valSeq           uint64
+	suspect          bool
+	log              *Digest
+	Concrete         []string
+	keepConcrete     bool
+	unregOrig        map[int]ecs.Filter
+	lastUnregSlot    int
+	hadUnreg         bool
+	gcCount          int
+	gcAt             int
+	resetCount       int
+	noTwin           bool
+	dispatchAdded    []bool
+	weak             *weakLedger
+	lastShadow       map[*Shadow]Result
+	lastGot          []Ev
+	rmOrder          []ecs.Entity
+	forceQ           bool
+	pendingRetention bool
+	noHook           bool // never touch the package-level hook (several engines on real goroutines)
 }
 
 func NewEngine(p *Plan) *Engine {
@@ -154,6 +155,11 @@ func NewEngine(p *Plan) *Engine {
 	// slot 0 is always All()
 	e.addSlot(&FilterSpec{Kind: "all"})
 	e.weak = newWeakLedger()
+	if p.Profile == "C14" && e.weak.enabled() {
+		canaryHook = e.weak.track
+	} else if p.Profile == "C14" {
+		canaryHook = nil
+	}
 	return e
 }
 
@@ -332,7 +338,7 @@ func describe(op *COp, why string, locked bool) string {
 func (e *Engine) Run(tr *Trace) (v *Violation) {
 	defer func() {
 		if !e.noHook {
-			ecs.VerifPoint = nil
+			setHookPoint(nil)
 		}
 		if r := recover(); r != nil {
 			// a panic that escaped: from the oracle's own observation calls (which are legal reads)
@@ -356,7 +362,7 @@ func (e *Engine) Run(tr *Trace) (v *Violation) {
 func (e *Engine) StepOnce(tr *Trace, i int) (v *Violation) {
 	defer func() {
 		if !e.noHook {
-			ecs.VerifPoint = nil
+			setHookPoint(nil)
 		}
 		if r := recover(); r != nil {
 			buf := make([]byte, 4096)
@@ -397,15 +403,17 @@ func (e *Engine) doStep(st *Step) *Violation {
 	e.gcAt = 0
 	if st.GC == 1 {
 		e.forceGC("gc-boundary")
+	} else if st.GC >= 3 && !HooksEnabled {
+		e.forceGC("gc-boundary")
 	} else if st.GC >= 3 && !e.noHook {
 		e.gcCount = 0
 		e.gcAt = st.GC - 2
-		ecs.VerifPoint = func(site int) {
+		setHookPoint(func(site int) {
 			e.gcCount++
 			if e.gcCount == e.gcAt {
 				e.forceGC("gc-midop")
 			}
-		}
+		})
 	}
 	c := &cursor{a: st.A}
 	var v *Violation
@@ -471,7 +479,7 @@ func (e *Engine) doStep(st *Step) *Violation {
 		e.St.Skipped++
 	}
 	if !e.noHook {
-		ecs.VerifPoint = nil
+		setHookPoint(nil)
 	}
 	if v != nil {
 		return e.twinDifferential(v)
@@ -535,10 +543,51 @@ func (e *Engine) forceGC(kind string) {
 	runtime.GC()
 	clobberSink += clobber(40)
 	e.St.Faults[kind]++
+	if kind == "gc-boundary" && e.weak.enabled() && e.P.Profile == "C14" {
+		e.pendingRetention = true
+	}
+}
+
+// checkRetention (C14): right after a full collection at an operation boundary, every tracked object that a
+// live component references must still be there, and every object that no component references any more
+// (component or entity removed, value overwritten, world reset) must be gone.
+func (e *Engine) checkRetention() *Violation {
+	live := map[uint64]bool{}
+	for _, me := range e.M.Alive {
+		for t, spec := range e.P.Types {
+			if spec.IsPtr() && me.Has(t) {
+				live[leU64(me.Val[t])] = true
+			}
+		}
+	}
+	for _, c := range e.weak.ids() {
+		_, alive := e.weak.alive(c)
+		switch {
+		case live[c] && !alive:
+			return e.viol("gc-integrity", nil, "object %d was collected although a live component references it", c)
+		case !live[c] && alive:
+			return e.viol("gc-retention", nil, "object %d is still reachable after a full GC although no component references it any more", c)
+		case !live[c]:
+			e.weak.forget(c)
+			e.St.Probes["released-object-collected"]++
+		default:
+			e.St.Probes["referenced-object-alive"]++
+		}
+	}
+	return nil
 }
 
 func (e *Engine) afterStep() *Violation {
 	s := e.S
+	if e.pendingRetention {
+		e.pendingRetention = false
+		// the GC ran before this step's operation (GC==1) or after it (GC==2); in both cases the model is consistent
+		// with the world now, but only a GC that ran after the last change tells about release: run one more.
+		runtime.GC()
+		if v := e.checkRetention(); v != nil {
+			return v
+		}
+	}
 	// lock ledger
 	if got := s.W.IsLocked(); got != e.locked() {
 		return e.viol("lock-ledger", nil, "IsLocked()=%v but %d queries are open", got, len(e.Open))
@@ -573,7 +622,7 @@ func (e *Engine) afterStep() *Violation {
 		}
 	}
 	if e.step%8 == 0 {
-		e.St.Shapes[s.W.VerifShape()] = struct{}{}
+		e.St.Shapes[worldShape(s.W)] = struct{}{}
 	}
 	return nil
 }
@@ -597,7 +646,7 @@ func (e *Engine) finish() *Violation {
 	if v := e.recoveryProbe(); v != nil {
 		return v
 	}
-	e.St.Shapes[e.S.W.VerifShape()] = struct{}{}
+	e.St.Shapes[worldShape(e.S.W)] = struct{}{}
 	d := e.S.W.DumpEntities()
 	e.logEnts("dump", d.Entities)
 	e.log.U64(uint64(d.Next))
